@@ -536,3 +536,103 @@ func VHAppendVersion(r *vrepo.Repo, i *Identity, name string) repository.Hash {
 
 func VHLocalRef(id entity.Id) string              { return identityRefPattern + id.String() }
 func VHRemoteRef(remote string, id entity.Id) string { return fmt.Sprintf(identityRemoteRefPattern, remote) + id.String() }
+
+// VH_C07_identity: MergeAll against a hostile remote identity (one structural mutation
+// from the catalogue) next to a healthy one: no crash, the bad one is reported invalid,
+// no local ref changes for it, and the healthy one is still merged.
+func VH_C07_identity() {
+	vhReset()
+	r := vrepo.New()
+	// healthy remote identity, ahead of the local one
+	good := vhChain(r, nil, 1, 1)
+	goodRemote := vhChain(r, vhCopyVersions(good), 1, 2)
+	goodId := good[0].id
+	r.SetRef(identityRefPattern+goodId.String(), good[0].commitHash)
+	r.SetRef(fmt.Sprintf(identityRemoteRefPattern, "origin")+goodId.String(), goodRemote[1].commitHash)
+
+	// hostile remote identity
+	bad := vhNewVersion(50)
+	mut := rt.Choose(8)
+	var head repository.Hash
+	data, _ := bad.MarshalJSON()
+	blob := r.AddBlob(data)
+	id := entity.DeriveId(data)
+	hasLocal := rt.Choose(2) == 1
+	var localHead repository.Hash
+	if hasLocal && mut != 7 {
+		lv := vhChain(r, nil, 1, 7)
+		id = lv[0].id
+		localHead = lv[0].commitHash
+		r.SetRef(identityRefPattern+id.String(), localHead)
+		// the remote claims to be that identity
+	}
+	switch mut {
+	case 0: // two tree entries
+		head = r.AddCommit(r.AddTree([]repository.TreeEntry{{ObjectType: repository.Blob, Hash: blob, Name: versionEntryName}, {ObjectType: repository.Blob, Hash: blob, Name: "extra"}}))
+		rt.Cover("extra-tree-entry")
+	case 1: // wrong entry name
+		head = r.AddCommit(r.AddTree([]repository.TreeEntry{{ObjectType: repository.Blob, Hash: blob, Name: "not-version"}}))
+		rt.Cover("wrong-entry-name")
+	case 2: // empty tree
+		head = r.AddCommit(r.AddTree(nil))
+		rt.Cover("empty-tree")
+	case 3: // undecodable version blob
+		junk := r.AddBlob([]byte("\"junk\""))
+		head = r.AddCommit(r.AddTree([]repository.TreeEntry{{ObjectType: repository.Blob, Hash: junk, Name: versionEntryName}}))
+		rt.Cover("undecodable-version")
+	case 4: // a version that does not validate (no name, no login)
+		v := vhNewVersion(51)
+		v.name = ""
+		head = vhStoreVersion(r, v, "")
+		if !hasLocal {
+			id = v.id
+		}
+		rt.Cover("invalid-version")
+	case 5: // a key list holding a null key (what "pub_keys":[null] decodes to)
+		v := vhNewVersion(52)
+		v.keys = []*Key{nil}
+		head = vhStoreVersion(r, v, "")
+		if !hasLocal {
+			id = v.id
+		}
+		rt.Cover("null-key")
+	case 6: // ref named after another id than the first version's
+		v := vhNewVersion(53)
+		head = vhStoreVersion(r, v, "")
+		if !hasLocal {
+			id = vhHexId(0x9999)
+		}
+		rt.Cover("ref-name-mismatch")
+	default: // dangling blob
+		head = r.AddCommit(r.AddTree([]repository.TreeEntry{{ObjectType: repository.Blob, Hash: repository.Hash("00000000000000000000000000000000000000ba"), Name: versionEntryName}}))
+		rt.Cover("dangling-blob")
+	}
+	badRemoteRef := fmt.Sprintf(identityRemoteRefPattern, "origin") + id.String()
+	r.SetRef(badRemoteRef, head)
+	r.ReverseRefs = rt.Choose(2) == 1
+	r.Log = nil
+	results := map[entity.Id]entity.MergeResult{}
+	panicked, _ := rt.Try(func() {
+		for res := range MergeAll(r, "origin") {
+			results[res.Id] = res
+		}
+	})
+	rt.Assert(!panicked, "hostile-identity-no-crash")
+	if panicked {
+		return
+	}
+	res, ok := results[id]
+	rt.Assert(ok, "hostile-identity-reported")
+	if ok {
+		rt.Assert(res.Status == entity.MergeStatusInvalid, "hostile-identity-reported-invalid")
+	}
+	if hasLocal && mut != 7 {
+		h, herr := r.ResolveRef(identityRefPattern + id.String())
+		rt.Assert(herr == nil && h == localHead, "local-identity-untouched")
+	} else {
+		exists, _ := r.RefExist(identityRefPattern + id.String())
+		rt.Assert(!exists, "no-local-ref-created-for-hostile-identity")
+	}
+	g, gok := results[goodId]
+	rt.Assert(gok && g.Status == entity.MergeStatusUpdated, "healthy-identity-still-merged")
+}
